@@ -38,7 +38,7 @@ pub fn run(args: &Args) -> serde_json::Value {
     let mut n_replay_words = 0usize;
     let mut n_replay_accepted = 0usize;
     let mut fail = |what: String, ctx: serde_json::Value, v: &mut Vec<serde_json::Value>| {
-        if v.len() < 60 {
+        {
             // the same concrete failure contradicts C03 and the structural property it belongs to
             let prop = if what.starts_with("world line") || what.starts_with("verify()") {
                 "C03,C06"
@@ -53,7 +53,9 @@ pub fn run(args: &Args) -> serde_json::Value {
             } else {
                 "C03"
             };
-            v.push(json!({"prop": prop, "what": what, "context": ctx}));
+            if v.iter().filter(|f| f["prop"].as_str() == Some(prop)).count() < 20 {
+                v.push(json!({"prop": prop, "what": what, "context": ctx}));
+            }
         }
     };
     for hi in 0..n_hist {
